@@ -1,3 +1,75 @@
 package main
 
-func childMain(args []string) {}
+import (
+	"crypto/sha256"
+	"fmt"
+	"os"
+	"sort"
+	"sync"
+
+	"verif/lib"
+)
+
+// childMain: small one-shot helpers run in fresh processes.
+//
+//	child report <profile-file> <data-file>          prints the report (fixed clock) or "ERROR: ..." (exit 0 either way)
+//	child conc <profile-file> <data-file> <n>        n goroutines validate the same pair; prints the distinct sha256 digests seen
+func childMain(args []string) {
+	if len(args) < 3 {
+		fmt.Fprintln(os.Stderr, "child: bad arguments")
+		os.Exit(2)
+	}
+	p, err1 := os.ReadFile(args[1])
+	d, err2 := os.ReadFile(args[2])
+	if err1 != nil || err2 != nil {
+		fmt.Fprintln(os.Stderr, "child: cannot read inputs")
+		os.Exit(2)
+	}
+	switch args[0] {
+	case "report":
+		o := lib.Validate(string(p), string(d))
+		if o.Failed() {
+			fmt.Print("ERROR: " + o.ErrString())
+			return
+		}
+		fmt.Print(o.Report)
+	case "conc":
+		n := 8
+		if len(args) > 3 {
+			fmt.Sscanf(args[3], "%d", &n)
+		}
+		digests := make([]string, n)
+		var wg sync.WaitGroup
+		start := make(chan struct{})
+		for i := 0; i < n; i++ {
+			wg.Add(1)
+			go func(i int) {
+				defer wg.Done()
+				<-start
+				o := lib.Validate(string(p), string(d))
+				if o.Failed() {
+					digests[i] = "ERROR: " + o.ErrString()
+					return
+				}
+				digests[i] = fmt.Sprintf("%x", sha256.Sum256([]byte(o.Report)))
+			}(i)
+		}
+		close(start)
+		wg.Wait()
+		set := map[string]bool{}
+		for _, x := range digests {
+			set[x] = true
+		}
+		keys := make([]string, 0, len(set))
+		for k := range set {
+			keys = append(keys, k)
+		}
+		sort.Strings(keys)
+		for _, k := range keys {
+			fmt.Println(k)
+		}
+	default:
+		fmt.Fprintln(os.Stderr, "child: unknown mode")
+		os.Exit(2)
+	}
+}
